@@ -254,6 +254,14 @@ func VH_C12_CloseDuringResend() {
 		return
 	}
 	vReach("closed-during-resend")
+	// no timer of the connection keeps running: a resend ticker that was
+	// re-armed after Close stopped it would tick within the resend timeout
+	time.Sleep(3 * time.Second)
+	select {
+	case <-p.cli.resendTicker.C:
+		vAssert(false, "the connection's resend ticker is still running after Close returned (timer leak)")
+	default:
+	}
 	select {
 	case <-srvDone:
 		vReach("peer-told")
